@@ -400,3 +400,22 @@ Proof.
   - induction (sources_of cfg dl b) as [|a srcs IH]; [reflexivity|]. cbn [bound_sum_where bound_sum].
     rewrite IH, (step_bound_where_all cfg dl a _ _ (Hall a)). reflexivity.
 Qed.
+
+(* ------------------------------------------------------------ example data (Properties/C03.v) *)
+(* Assets:B holds two commodities: it buys 1.5 A and 2 D on 2021-03-01 and 0.3 A on 03-03.  A is
+   quoted in D only (1.5 D on 03-01, 2 D on 03-04), D in C (2 C on 03-01, 2.5 C on 03-02): the price
+   of A in C goes through D (3, 3.75, 5 C).  The report is valued in C, daily over 03-02 .. 03-04,
+   with --close and --commodity ^A$: it shows the A of the account only, and needs the prices of D,
+   which it does not show, to do so. *)
+Open Scope Z_scope.
+Definition exw_d : commodity := [68].
+Definition exw_journal : list sdirective :=
+  [ SOpen exr_d0 exr_a; SOpen exr_d0 exr_o;
+    SPrice exr_d0 exw_d (mkDec 2 0) exr_V;
+    SPrice exr_d0 exr_c (mkDec 15 (-1)) exw_d;
+    STxn (mkStxn exr_d0 [] [mkBooking exr_o exr_a (mkDec 15 (-1)) exr_c; mkBooking exr_o exr_a (mkDec 2 0) exw_d] None None);
+    SPrice (exr_d0 + 1) exw_d (mkDec 25 (-1)) exr_V;
+    STxn (mkStxn (exr_d0 + 2) [] [mkBooking exr_o exr_a (mkDec 3 (-1)) exr_c] None None);
+    SPrice (exr_d0 + 3) exr_c (mkDec 2 0) exw_d ].
+Definition exw_cfg : balance_cfg :=
+  mkBalanceCfg (exr_d0 + 1) (exr_d0 + 3) Daily 0 false true (Some exr_V) true [] [] [] [mkRx true exr_c true] [] true.
